@@ -332,3 +332,74 @@ func VerifC05Cross() {
 		vrt.Cover("runtime-error")
 	}
 }
+
+// StmtLean builds statement trees of depth d whose conditions are boolean literals and whose
+// leaves are a literal, an assignment, a return and a yield: no solver work per shape, so the
+// nesting can go one level deeper than Stmt. With narrow set, two-sided forms (if/else, blocks)
+// take a deep subtree on one side and a leaf on the other.
+func (g *Gen) StmtLean(d int, narrow bool) node.Type {
+	leaf := func() node.Type {
+		switch vrt.Choice("lean-leaf", 4) {
+		case 0:
+			return node.Int(vrt.Int("lit"))
+		case 1:
+			return asg("x", node.Int(vrt.Int("lit")))
+		case 2:
+			return node.Return{Target: node.Int(vrt.Int("lit"))}
+		default:
+			return node.Yield{Target: node.Int(vrt.Int("lit"))}
+		}
+	}
+	if d <= 0 {
+		return leaf()
+	}
+	cond := func() node.Type { return node.Bool(vrt.Bool("lean-cond")) }
+	pair := func() (node.Type, node.Type) {
+		if !narrow || d == 1 {
+			return g.StmtLean(d-1, narrow), g.StmtLean(d-1, narrow)
+		}
+		if vrt.Bool("deep-side-first") {
+			return g.StmtLean(d-1, narrow), leaf()
+		}
+		return leaf(), g.StmtLean(d-1, narrow)
+	}
+	switch vrt.Choice("lean-stmt", 8) {
+	case 0:
+		return leaf()
+	case 1:
+		return node.If{Condition: cond(), TrueCase: g.StmtLean(d-1, narrow)}
+	case 2:
+		a, b := pair()
+		return node.IfElse{Condition: cond(), TrueCase: a, FalseCase: b}
+	case 3: // counted loop
+		return blk(asg("w", node.Int(0)), node.While{Condition: bin("<", nm("w"), node.Int(2)), Body: blk(asg("w", bin("+", nm("w"), node.Int(1))), g.StmtLean(d-1, narrow))})
+	case 4: // loop that is never entered / left at once
+		return node.While{Condition: cond(), Body: blk(g.StmtLean(d-1, narrow), node.Return{Target: node.Int(vrt.Int("lit"))})}
+	case 5:
+		return node.For{VarRefs: node.List{Elems: []node.Type{nm("k")}}, Iterators: node.List{Elems: []node.Type{call("fromto", node.Int(0), node.Int(2))}}, Body: g.StmtLean(d-1, narrow)}
+	case 6:
+		return node.For{VarRefs: node.List{Elems: []node.Type{nm("k"), nm("l")}},
+			Iterators: node.List{Elems: []node.Type{call("fromto", node.Int(0), node.Int(2)), call("fromto", node.Int(0), node.Int(1))}}, Body: g.StmtLean(d-1, narrow)}
+	default:
+		a, b := pair()
+		return blk(a, b)
+	}
+}
+
+// VerifC05Nest: statement nests one level deeper than VerifC05Stmt (lean leaves and conditions) in
+// every body position: no crash, and the machine is idle afterwards.
+func VerifC05Nest() {
+	s := New()
+	g := NewGen(s)
+	st := g.StmtLean(vrt.Param("leandepth", 2), vrt.Param("narrow", 1) == 1)
+	prog, used := StmtEmbed(vrt.Choice("sctx", NStmtCtx), st)
+	vrt.Note("program", Src(prog))
+	_, err := s.Run(prog, used)
+	c := Class(err)
+	vrt.Assert(c != EOther, "outcome-is-value-or-documented-error")
+	s.c09Clean("after-statement")
+	v, err2 := s.Run(bin("+", node.Int(1), node.Int(1)), true)
+	two, ok := v.ToInt()
+	vrt.Assert(err2 == nil && ok && two == 2, "session-usable-afterwards")
+	vrt.Cover("done")
+}
